@@ -1988,7 +1988,7 @@ void SPxSolverBase<R>::setType(Type tp)
          }
       }
 
-      if(basisdim != dim())
+      if(basisdim != this->nRows())
          return false;
 
       // basis valid
